@@ -162,6 +162,100 @@ func checkC09(c *Ctx) {
 		}
 	}
 
+	// ---- C09.15 shutdown: a goroutine is counted before it is started - Add inside the goroutine races with Wait
+	r.Rule("C09.15", "no goroutine registers itself with the wait group that waits for it", 1)
+	{
+		started := map[*ssa.Function]bool{}
+		fns := c.funcsOfPkgs("pkg/station/lib", "cmd/application")
+		for _, f := range fns {
+			eachInstr(f, func(in ssa.Instruction) {
+				if g, ok := in.(*ssa.Go); ok {
+					if cal := g.Call.StaticCallee(); cal != nil {
+						started[cal] = true
+					} else if mc, ok := g.Call.Value.(*ssa.MakeClosure); ok {
+						if fn, ok := mc.Fn.(*ssa.Function); ok {
+							started[fn] = true
+						}
+					}
+				}
+			})
+		}
+		n, bad := 0, 0
+		for _, f := range fns {
+			if !started[f] {
+				continue
+			}
+			eachInstr(f, func(in ssa.Instruction) {
+				call, ok := in.(*ssa.Call)
+				if !ok || calleeName(&call.Call) != "(*sync.WaitGroup).Add" {
+					return
+				}
+				n++
+				// the wait group comes from outside the goroutine (a parameter or a captured variable)
+				root := call.Call.Args[0]
+				for i := 0; i < 6; i++ {
+					switch x := root.(type) {
+					case *ssa.UnOp:
+						root = x.X
+						continue
+					case *ssa.FieldAddr:
+						root = x.X
+						continue
+					}
+					break
+				}
+				_, isParam := root.(*ssa.Parameter)
+				_, isFree := root.(*ssa.FreeVar)
+				if isParam || isFree {
+					bad++
+					r.Bad("C09.15", fnName(f)+": adds itself to "+firstN(pathOf(call.Call.Args[0]), 30)+" after it was started", in.Pos(), fnName(f),
+						"the goroutine increments the wait group it was handed: the owner's Wait can run before the increment, return while workers are still starting and let the deferred clean-up (closing the channel the workers read) run under them - a stop request during start-up panics a worker or trips the WaitGroup misuse check")
+				}
+			})
+		}
+		if bad == 0 {
+			r.OK("C09.15", "goroutines of the station are counted by their starter", token.NoPos, fmt.Sprintf("%d started function(s) examined, %d WaitGroup.Add call(s) inside them, none on a wait group from outside", len(started), n))
+		}
+	}
+
+	// ---- C09.14 a tracked registration leaves the table through the expiry sweep only: any other removal races with
+	// the delivery that validates (and announces) the same entry - unless it is made under a not-valid test
+	r.Rule("C09.14", "table entries are deleted by the sweep's removeRegistration only (or under a not-valid test)", 3)
+	{
+		n := 0
+		for _, f := range c.funcsOfPkgs("pkg/station/lib") {
+			eachInstr(f, func(in ssa.Instruction) {
+				call, ok := in.(*ssa.Call)
+				if !ok {
+					return
+				}
+				b, isB := call.Call.Value.(*ssa.Builtin)
+				if !isB || b.Name() != "delete" {
+					return
+				}
+				mp := pathOf(call.Call.Args[0])
+				if !strings.HasSuffix(mp, ".decoysTimeouts") && !strings.Contains(mp, ".decoys[") && !strings.HasSuffix(mp, ".decoys") {
+					return
+				}
+				if o, _, ok := fieldOwnerDeep(call.Call.Args[0]); ok && o != "lib.RegisteredDecoys" {
+					return
+				}
+				n++
+				okk := f.Name() == "removeRegistration" || onlyCalledFrom(f, "removeRegistration", 2) || onlyCalledFrom(f, "removeOldRegistrations", 2)
+				how := "in the sweep"
+				if !okk {
+					okk = guardedM(f, in, func(cnd string, pol bool) bool { return strings.HasSuffix(cnd, ".Valid") && !pol })
+					how = "under a not-valid test"
+				}
+				r.Check(okk, "C09.14", fnName(f)+": delete from "+firstN(mp, 40)+" belongs to the expiry sweep", in.Pos(), fnName(f), how,
+					"an entry is deleted from the registration table outside the expiry sweep and without testing that it is not valid: a duplicate delivery that has meanwhile validated and announced the same entry loses it - an interleaving with no serial equivalent (announced, counted active, but not tracked)")
+			})
+		}
+		if n == 0 {
+			r.Unk("C09.14", "deletes from the registration table", token.NoPos, "", "none found")
+		}
+	}
+
 	// ---- C09.10 a single remover: removeRegistration uses the record it looks up without a found-test, which is only
 	// safe while nothing else can delete records between the sweeper's collection and removal phases
 	r.Rule("C09.10", "records are removed by one sweeper only (or removeRegistration tolerates a record that is already gone)", 1)
@@ -842,4 +936,24 @@ func withChanHelpers(f *ssa.Function) []*ssa.Function {
 	}
 	walk(f, 0)
 	return out
+}
+
+// fieldOwnerDeep: the owner of the field at the root of a map expression such as r.decoys[k] or r.decoys.
+func fieldOwnerDeep(v ssa.Value) (string, string, bool) {
+	for i := 0; i < 6 && v != nil; i++ {
+		switch x := v.(type) {
+		case *ssa.UnOp:
+			if o, f, ok := fieldOwner(x.X); ok {
+				return o, f, true
+			}
+			v = x.X
+		case *ssa.Lookup:
+			v = x.X
+		case *ssa.Extract:
+			v = x.Tuple
+		default:
+			return "", "", false
+		}
+	}
+	return "", "", false
 }
